@@ -59,4 +59,6 @@ MUTANTS = [
     m("c12-twin-nested-if", None, SO, "            if error < convergence_tol:\n                return x\n            x0 = x\n    except (ValueError, LinAlgError) as e:\n        # Make robust to errors in intermediate linear algebra ops\n        msg = f\"{type(e)} at iteration {i} of fixed point solver ({e}).\"\n        raise ConvergenceError(msg) from e\n    msg = f\"Fixed point iteration did not converge. Last error={error:.1e}.\"\n    raise ConvergenceError(msg)\n\n\ndef solve_fixed_point_steffensen(", "            if not error >= convergence_tol:\n                return x\n            x0 = x\n    except (ValueError, LinAlgError) as e:\n        # Make robust to errors in intermediate linear algebra ops\n        msg = f\"{type(e)} at iteration {i} of fixed point solver ({e}).\"\n        raise ConvergenceError(msg) from e\n    msg = f\"Fixed point iteration did not converge. Last error={error:.1e}.\"\n    raise ConvergenceError(msg)\n\n\ndef solve_fixed_point_steffensen(", twin=True),
     m("c12-twin-split-and", None, SO, "            if error < constraint_tol and norm(delta_pos) < position_tol:\n                state.mom -= np.sign(time_step) * dh2_flow_mom_dmom @ mu\n                return state\n            mu += delta_mu\n            state.pos -= delta_pos\n    except (ValueError, LinAlgError) as e:\n        # Make robust to errors in intermediate linear algebra ops\n        msg = f\"{type(e)} at iteration {i} of quasi-Newton", "            if error < constraint_tol:\n                if norm(delta_pos) < position_tol:\n                    state.mom -= np.sign(time_step) * dh2_flow_mom_dmom @ mu\n                    return state\n            mu += delta_mu\n            state.pos -= delta_pos\n    except (ValueError, LinAlgError) as e:\n        # Make robust to errors in intermediate linear algebra ops\n        msg = f\"{type(e)} at iteration {i} of quasi-Newton", twin=True),
     m("c12-twin-catch-error-base", None, T, "            except IntegratorError as e:\n                _process_integrator_error(e, stats)\n                terminate, tree, proposal = True, None, None", "            except Error as e:\n                _process_integrator_error(e, stats)\n                terminate, tree, proposal = True, None, None", twin=True),
+    {"id": "c12-undo-F22", "prop": "C12", "rule": "R9", "key": "foreign-exception-escapes", "edits": [{"file": "integrators.py", "old": "        try:\n            self._step(state, state.dir * self.step_size)\n        except (ValueError, LinAlgError) as e:\n            # Make robust to errors in intermediate linear algebra ops outside of the\n            # iterative solvers, for example due to non-finite values\n            msg = f\"{type(e)} when computing integrator step ({e}).\"\n            raise ConvergenceError(msg) from e\n", "new": "        self._step(state, state.dir * self.step_size)\n"}]},
+    {"id": "c12-step-handler-valueerror-only", "prop": "C12", "rule": "R9", "key": "foreign-exception-escapes", "edits": [{"file": "integrators.py", "old": "        except (ValueError, LinAlgError) as e:\n            # Make robust to errors in intermediate linear algebra ops outside of the", "new": "        except ValueError as e:\n            # Make robust to errors in intermediate linear algebra ops outside of the"}]},
 ]
